@@ -268,8 +268,7 @@ Definition output_templates : list template :=
 (* ---------------------------------------------------------------------------------------- *)
 Inductive sresult :=
 | SMatch (name : tname) (vs : values)
-| SNoMatch                         (* ValueError('No matching templates for source') *)
-| SStructError                     (* struct.error escaping from the tokenizer *)
+| SNoMatch                         (* ValueError: 'No matching templates for source' / 'Malformed push in script' *)
 | SFuel.                           (* model artefact, proved unreachable *)
 
 (* for template in chain((hint,), templates): first one that parses *)
@@ -286,7 +285,7 @@ Fixpoint first_match (tpls : list template) (toks : list token) : sresult :=
 
 Definition script_parse (hint : option template) (tpls : list template) (src : bytes) : sresult :=
   match tokenize src with
-  | TokErr StructError => SStructError
+  | TokErr StructError => SNoMatch   (* struct.error of the tokenizer is re-raised as ValueError *)
   | TokErr TokFuel => SFuel
   | TokOk toks =>
       let hint' := match toks, hint with [], None => Some NO_SCRIPT | _, _ => hint end in
